@@ -83,6 +83,10 @@ func main() {
 			dumpWrites(c, strings.TrimPrefix(*dump, "writes:"))
 			return
 		}
+		if strings.HasPrefix(*dump, "paths:") {
+			dumpPaths(c, strings.TrimPrefix(*dump, "paths:"))
+			return
+		}
 		if strings.HasPrefix(*dump, "guards:") {
 			dumpGuards(c, strings.TrimPrefix(*dump, "guards:"))
 			return
